@@ -8,6 +8,7 @@ import (
 	"fmt"
 	"net/http"
 	"strconv"
+	"strings"
 	"testing"
 
 	"github.com/apache/arrow-go/v18/arrow"
@@ -104,6 +105,9 @@ func (p *VfC13Exch) Exchange(ctx context.Context, in arrow.RecordBatch, out *Out
 func init() { RegisterStateType(&VfC13Exch{}) }
 
 var vfC13Key = []byte("c13-fixed-token-key-0123456789ab")
+
+// vfC13Uniq makes the identities of space 2b unique per execution (see there).
+var vfC13Uniq int
 
 const vfC13StreamID = "0123456789abcdef0123456789abcdef"
 
@@ -390,6 +394,139 @@ func TestVerif_C13(t *testing.T) {
 			x.Failf(cls+":same-identity-refused", "%s presenting its own session token was refused (prior use: %s): status=%d %s", A, prior, r.status, r.errs)
 		case a != b && accepted:
 			x.Failf(cls+":cross-identity-accepted:"+rel, "session token minted for %s accepted from %s on %s (prior use: %s): status=%d events=%v", A, B, route, prior, r.status, vfEventStrings())
+		}
+	})
+
+	// ---- 2b. identities whose textual renderings collide ---------------------------
+	//
+	// Pairs of DIFFERENT identities whose domain and principal concatenate to the
+	// same string (plainly, or around a separator character a memo / cache key
+	// might use), in both orders of first use. Any identity-keyed state that is
+	// process-wide (package level) would survive from one execution to the next,
+	// so every execution derives its identities from a counter: no identity string
+	// is ever seen by two executions (or by an execution and its confirmation
+	// re-runs), and the counter value never enters an outcome or a signature.
+	type shape struct {
+		name, family string
+		mk           func(u string) (vfC13Id, vfC13Id)
+	}
+	sepShape := func(label, sep string) shape {
+		return shape{"split-around-" + label, "separator-" + label, func(u string) (vfC13Id, vfC13Id) {
+			return vfC13Id{domain: u + "a" + sep + "b", principal: "c"}, vfC13Id{domain: u + "a", principal: "b" + sep + "c"}
+		}}
+	}
+	shapes := []shape{
+		{"ab|c-vs-a|bc", "concatenation", func(u string) (vfC13Id, vfC13Id) {
+			return vfC13Id{domain: u + "ab", principal: "c"}, vfC13Id{domain: u + "a", principal: "bc"}
+		}},
+		{"bearer|empty-vs-empty|bearer", "concatenation", func(u string) (vfC13Id, vfC13Id) {
+			return vfC13Id{domain: u + "bearer", principal: ""}, vfC13Id{domain: "", principal: u + "bearer"}
+		}},
+		{"long-principal-vs-long-domain", "concatenation", func(u string) (vfC13Id, vfC13Id) {
+			return vfC13Id{domain: u, principal: "alice@example.com"}, vfC13Id{domain: u + "alice@example", principal: ".com"}
+		}},
+		{"nul-in-principal", "concatenation", func(u string) (vfC13Id, vfC13Id) {
+			return vfC13Id{domain: u, principal: "\x00z"}, vfC13Id{domain: "", principal: u + "\x00z"}
+		}},
+		sepShape("colon", ":"), sepShape("slash", "/"), sepShape("pipe", "|"), sepShape("space", " "), sepShape("at", "@"),
+	}
+	venum.Explore(t, venum.Cfg{Name: "colliding-identity-histories", Shardable: true}, func(x *venum.X) {
+		sh := shapes[x.Choose(len(shapes), "shape")]
+		swap := x.Bool("swap-roles")
+		history := x.Pick("first-use", "minter-first", "presenter-first-same-server", "presenter-first-other-server")
+		kind := x.Pick("kind", "stream", "cursor", "call", "sticky")
+		cacheOff := x.Bool("call-cache-off")
+		self := x.Bool("control-present-as-minter")
+
+		vfC13Uniq++
+		u := fmt.Sprintf("u%dx", vfC13Uniq)
+		A, B := sh.mk(u)
+		if swap {
+			A, B = B, A
+		}
+		pair := []vfC13Id{A, B}
+		const a, b = 0, 1
+		present := b
+		if self {
+			present = a
+		}
+
+		vfResetEvents()
+		h := vfC13Server(pair, cacheOff, true)
+		defer vfC13Stop(h)
+		useAsB := func(on *HttpServer) bool {
+			bc, bk, ok := vfC13Init(on, b)
+			if !ok {
+				return false
+			}
+			r := vfC13Exchange(on, b, bc, bk)
+			return r.status == 200 && r.pan == nil
+		}
+		switch history {
+		case "presenter-first-same-server":
+			if !useAsB(h) {
+				venum.EngineError("C13 harness: presenter's own stream failed")
+				return
+			}
+		case "presenter-first-other-server":
+			other := vfC13Server(pair, false, false)
+			if !useAsB(other) {
+				venum.EngineError("C13 harness: presenter's own stream failed (other server)")
+				return
+			}
+		}
+
+		var r vfC13Resp
+		accepted := false
+		if kind == "sticky" {
+			ro := vfC13Post(h, a, "/open", vfXReq("open", int64(a)), stickySessionAcceptHeader, "true")
+			tok := ro.hdr.Get(stickySessionHeader)
+			if tok == "" {
+				venum.EngineError("C13 harness: open session failed: %d %s", ro.status, ro.errs)
+				return
+			}
+			vfResetEvents()
+			r = vfC13Post(h, present, "/who", vfXReq("who", 0), stickySessionHeader, tok)
+			accepted = len(vfEvents) == 1 && vfEvents[0].Input == fmt.Sprintf("sess=%d", a)
+		} else {
+			cur, call, ok := vfC13Init(h, a)
+			if !ok {
+				venum.EngineError("C13 harness: init as minter failed")
+				return
+			}
+			if kind != "stream" {
+				own, err := h.openCursorToken([]byte(cur), A.auth())
+				if err != nil {
+					venum.EngineError("C13 harness: cannot open minter's cursor as minter: %v", err)
+					return
+				}
+				forge := vfC13Server(pair, true, false)
+				if kind == "cursor" {
+					tok, _ := forge.packCallToken(own.CallID, vfOutSchema, pair[present].auth(), vfC13StreamID)
+					call = string(tok)
+				} else {
+					tok, _ := forge.packCursorTokenFor(own.CallID, "ex", &VfC13Exch{Owner: a}, pair[present].auth())
+					cur = string(tok)
+				}
+			}
+			vfResetEvents()
+			r = vfC13Exchange(h, present, cur, call)
+			accepted = len(vfEvents) > 0
+		}
+		x.Outcome("self=%v kind=%s accepted=%v status=%d rpcerr=%q panic=%v", self, kind, accepted, r.status, r.rpcErr, r.pan != nil)
+		x.Note("shape %s (family %s), swap=%v, first use: %s, kind=%s, cache-off=%v, present-as-minter=%v -> accepted=%v status=%d errs=%s",
+			sh.name, sh.family, swap, history, kind, cacheOff, self, accepted, r.status, r.errs)
+		cls := "C13:collision:" + sh.family + ":" + kind
+		switch {
+		case r.pan != nil:
+			x.Failf(cls+":panic", "panic escaped ServeHTTP: %v", r.pan)
+		case self && !accepted:
+			x.Failf(cls+":same-identity-refused", "minter presenting its own token(s) was refused (first use: %s): status=%d %s", history, r.status, r.errs)
+		case !self && accepted:
+			x.Failf(cls+":cross-identity-accepted", "token(s) minted for (domain <u>+%q, principal %q) accepted from a different identity with the same rendering (shape %s, first use: %s, cache-off=%v): status=%d",
+				strings.TrimPrefix(A.domain, u), strings.TrimPrefix(A.principal, u), sh.name, history, cacheOff, r.status)
+		case !self && kind != "sticky" && (r.status < 400 || r.status > 499):
+			x.Failf(cls+":refusal-not-a-client-error", "status=%d %s", r.status, r.errs)
 		}
 	})
 
